@@ -201,3 +201,77 @@ func VerifHostAddr(h *HostInfo) string {
 }
 
 func VerifPreparedLen(s *Session) int { return s.stmtsLRU.lru.Len() }
+
+// VerifPools describes every host pool: address -> (configured size, connections, how many of them are closed, closed flag).
+type VerifPoolInfo struct {
+	Addr       string
+	Size       int
+	Conns      int
+	ClosedConn int
+	PoolClosed bool
+	Filling    bool
+}
+
+func VerifPools(s *Session) []VerifPoolInfo {
+	var out []VerifPoolInfo
+	if s.pool == nil {
+		return out
+	}
+	for _, p := range s.pool.hostConnPools {
+		pi := VerifPoolInfo{Addr: p.host.ConnectAddress().String(), Size: p.size, Conns: len(p.conns), PoolClosed: p.closed, Filling: p.filling}
+		for _, c := range p.conns {
+			if c.closed {
+				pi.ClosedConn++
+			}
+		}
+		out = append(out, pi)
+	}
+	return out
+}
+
+// VerifRemoveHost runs Session.removeHost for the host with the given address (as a refresh would).
+func VerifRemoveHost(s *Session, ip string) bool {
+	for _, h := range s.ring.allHosts() {
+		if h.ConnectAddress().String() == ip {
+			s.removeHost(h)
+			return true
+		}
+	}
+	return false
+}
+
+func VerifDebounceRingRefresh(s *Session) { s.debounceRingRefresh() }
+func VerifRefreshRing(s *Session) error   { return s.refreshRing() }
+
+// VerifRing is a snapshot of the three ring indexes and the policy/pool views.
+type VerifRing struct {
+	Hosts    map[string]string // host id -> connect address
+	States   map[string]bool   // host id -> up
+	IPToUUID map[string]string
+	HostList []string // host ids in list order
+	PoolIDs  []string // host ids that have a pool
+}
+
+func VerifRingSnapshot(s *Session) VerifRing {
+	r := VerifRing{Hosts: map[string]string{}, States: map[string]bool{}, IPToUUID: map[string]string{}}
+	for id, h := range s.ring.hosts {
+		if h == nil {
+			r.Hosts[id] = "<nil>"
+			continue
+		}
+		r.Hosts[id] = h.connectAddress.String()
+		r.States[id] = h.state == NodeUp
+	}
+	for ip, id := range s.ring.hostIPToUUID {
+		r.IPToUUID[ip] = id
+	}
+	for _, h := range s.ring.hostList {
+		r.HostList = append(r.HostList, h.hostId)
+	}
+	if s.pool != nil {
+		for id := range s.pool.hostConnPools {
+			r.PoolIDs = append(r.PoolIDs, id)
+		}
+	}
+	return r
+}
